@@ -23,7 +23,8 @@ def is_correct_tag(tag):
     # first check if tag follows the scheme two_letters:{AifZHB}:value
     if not re.match(tag_regex, tag):
         return False
-    name, tag_type, value = tag.split(":")
+    # the value itself may contain ':' (Z strings), so split at the first two only
+    name, tag_type, value = tag.split(":", 2)
     if not re.match(types_regex[tag_type], value):
         return False
     return True
